@@ -18,7 +18,7 @@ CHECK = {
                    "by level), all parsed constants satisfy their defining equations. Models tied to the code by running both on "
                    "the same requests.",
     "trusted_base": [
-        "blst (C/assembly): Fp/Fp2/Fp12 arithmetic, miller_loop, miller_loop_lines, precompute_lines, final_exp are specified "
+        "blst (C/assembly): Fp/Fp2/Fp12 arithmetic, miller_loop, miller_loop_lines, precompute_lines, final_exp, pairing_* context are specified "
         "(tower model, textbook ate pairing raised to 3(p^12-1)/r) and checked by correspondence only",
         "translator translators/c13_consts.py (python): prints the constants the sources contain; its Montgomery conversion is re-proved in Lean",
     ],
@@ -26,7 +26,10 @@ CHECK = {
         "the optimal ate pairing (Miller function followed by the final exponentiation) is bilinear and non-degenerate on the "
         "order-r subgroups: hypothesis fields of `Pairing` / `MillerEngine`, tested by samples, not proved",
         "BN254: the joint Miller loop on lists without identity points reduces to the product of the pairings (hypothesis of "
-        "multi_pairing_product_bn); its code is mirrored by the model and compared value by value with the real Fq12 results",
+        "multi_pairing_product_bn); its code is mirrored by the model (steps proved to be Jacobian doubling/addition with tangent/chord "
+        "lines) and compared value by value with the real Fq12 results, and the reduced pairing with an independent textbook optimal ate pairing",
+        "cyclotomic_square = square on the cyclotomic subgroup: not proved (mirrored and compared; final_exponentiation is also compared "
+        "with the plain power f^((p^12-1)/r))",
         "Frobenius maps are the p^k-power maps (the coefficient tables are proved to be the stated powers of the non-residue; "
         "that this makes the map a field automorphism is not proved)",
     ],
